@@ -173,6 +173,48 @@ class Partial(IdentityDagWalker):
             self.functions[nt] = self.walk_error
 
 
+_CUSTOM_NT = []
+
+
+def custom_node_type():
+    """a node type registered with `new_node_type` for which no walker has a rule (process-wide, created once)"""
+    if not _CUSTOM_NT:
+        _CUSTOM_NT.append(op.new_node_type(node_str="VERIF_C15_CUSTOM"))
+    return _CUSTOM_NT[0]
+
+
+def parse_in(env, text):
+    return SmtLibParser(env).get_script(io.StringIO(text)).get_last_formula()
+
+
+POOL_DECLS = ("(declare-fun x () Int)(declare-fun y () Int)(declare-fun r () Real)(declare-fun q () Real)"
+              "(declare-fun v () (_ BitVec 8))(declare-fun w () (_ BitVec 8))(declare-fun p0 () Bool)"
+              "(declare-fun p1 () Bool)(declare-fun a () (Array Int Int))(declare-fun b () (Array Int Int))")
+
+
+def repeats_of(env, fam, kind, th):
+    """later calls that build the SAME content as the failing construction `kind` (the call itself again, a derived
+    constructor with swapped operands, the parser): they must fail exactly as they do on an untouched twin"""
+    m = env.formula_manager
+    P = fam.pool
+    x, v, r = P["i"][0], P["v"][0], P["r"][0]
+    reps = [("again", th), ("again2", th)]
+    extra = {
+        "construct:bvult-int": [("swapped", lambda: m.BVUGT(v, x)),
+                                ("parser", lambda: parse_in(env, POOL_DECLS + "(assert (bvult x v))"))],
+        "construct:bvule-int": [("swapped", lambda: m.BVUGE(v, x)),
+                                ("parser", lambda: parse_in(env, POOL_DECLS + "(assert (bvule x v))"))],
+        "construct:bvslt-real": [("swapped", lambda: m.BVSGT(v, r)),
+                                 ("parser", lambda: parse_in(env, POOL_DECLS + "(assert (bvslt r v))"))],
+        "construct:bvsle-int": [("swapped", lambda: m.BVSGE(v, x)),
+                                ("parser", lambda: parse_in(env, POOL_DECLS + "(assert (bvsle x v))"))],
+        "construct:plus-int-real": [("parser", lambda: parse_in(env, POOL_DECLS + "(assert (< (+ x r) r))"))],
+        "construct:custom-no-rule": [("same-content", lambda: m.create_node(node_type=custom_node_type(), args=(x,)))],
+        "construct:bvult-int-raw": [("constructor", lambda: m.BVULT(x, v)), ("swapped", lambda: m.BVUGT(v, x))],
+    }
+    return reps + extra.get(kind, [])
+
+
 def natural_failures(env, fam, rng):
     """[(kind, thunk)] -- calls that raise on their own"""
     m = env.formula_manager
@@ -191,7 +233,20 @@ def natural_failures(env, fam, rng):
         ("construct:ite-cond", lambda: m.Ite(x, deep, p0)),
         ("construct:store-index", lambda: m.Store(P["a"][-1], r, x)),
         ("construct:le-bool", lambda: m.LE(deep, x)),
-        ("construct:bvult-int", lambda: m.BVULT(x, v)),
+        ("construct:bvult-int", lambda: m.BVULT(x, v)),            # AttributeError, not PysmtTypeError
+        ("construct:bvule-int", lambda: m.BVULE(P["i"][-1], v)),
+        ("construct:bvule-int", lambda: m.BVULE(x, v)),
+        ("construct:bvslt-real", lambda: m.BVSLT(r, v)),
+        ("construct:bvsle-int", lambda: m.BVSLE(x, v)),
+        ("construct:bvult-bool-first", lambda: m.BVULT(p0, v)),
+        ("construct:bvult-int-raw", lambda: m.create_node(node_type=op.BV_ULT, args=(x, v))),
+        ("construct:bvadd-int-first", lambda: m.create_node(node_type=op.BV_ADD, args=(x, v), payload=(8,))),
+        ("construct:bvconcat-int", lambda: m.create_node(node_type=op.BV_CONCAT, args=(x, v), payload=(16,))),
+        ("construct:bvextract-int", lambda: m.create_node(node_type=op.BV_EXTRACT, args=(x,), payload=(4, 0, 3))),
+        ("construct:bvnot-int", lambda: m.create_node(node_type=op.BV_NOT, args=(x,), payload=(8,))),
+        ("construct:bvconcat-ctor-int", lambda: m.BVConcat(x, v)),
+        ("construct:custom-no-rule", lambda: m.create_node(node_type=custom_node_type(), args=(x,))),
+        ("construct:custom-no-rule-deep", lambda: m.create_node(node_type=custom_node_type(), args=(deep, P["i"][-1]))),
         ("construct:select-bv-index", lambda: m.Select(a, v)),
         ("construct:int-float", lambda: m.Int(1.0)),
         ("construct:real-bool", lambda: m.Real(True)),
@@ -223,7 +278,7 @@ def walker_specs():
 
 
 # ----------------------------------------------------------------------------------------------
-def scenario_natural(ctx, seed, n, ref_cache, stats):
+def scenario_natural(ctx, seed, n, ref_cache, stats, only=None):
     env, fam = make_env(seed, n)
     ref = reference(seed, n, ref_cache)
     push_env(env)
@@ -231,10 +286,12 @@ def scenario_natural(ctx, seed, n, ref_cache, stats):
         fails = natural_failures(env, fam, ctx.rng)
     finally:
         pop_env()
-    kind, th = fails[ctx.rng.randrange(len(fails))]
+    pick = ctx.rng.randrange(len(fails)) if only is None else [i for i, f in enumerate(fails) if f[0] == only][0]
+    kind, th = fails[pick]
     push_env(env)
     try:
         k, v = outcome(th)
+        got_rep = [(nm,) + outcome_key(rt) for nm, rt in repeats_of(env, fam, kind, th)] if k == "exc" else []
     finally:
         pop_env()
     if k != "exc":
@@ -242,8 +299,31 @@ def scenario_natural(ctx, seed, n, ref_cache, stats):
         ctx.count("natural-did-not-raise")
         return
     ctx.count("fail:" + kind.split(":")[0])
-    judge(ctx, env, fam, ref, {"fail": kind, "seed": seed, "n": n}, {"fail": kind.split(":")[0], "call": kind}, stats)
+    replay = {"fail": kind, "seed": seed, "n": n}
+    sig = {"fail": kind.split(":")[0], "call": kind}
+    # the same content again (same call, swapped derived constructor, parser): as on an untouched twin
+    rkey = (seed, n, pick)
+    if rkey not in ref_cache:
+        tenv, tfam = make_env(seed, n)
+        push_env(tenv)
+        try:
+            tkind, tth = natural_failures(tenv, tfam, None)[pick]
+            ref_cache[rkey] = [(nm,) + outcome_key(rt) for nm, rt in repeats_of(tenv, tfam, tkind, tth)]
+        finally:
+            pop_env()
+    for g, t in zip(got_rep, ref_cache[rkey]):
+        if g != t:
+            ctx.report_s(dict(sig, oracle="repeat-differs", probe=g[0]),
+                         "after the failing call %s, building the same content again (%s) gives %s; on the untouched "
+                         "twin %s" % (kind, g[0], str(g[1:])[:100], str(t[1:])[:100]), dict(replay, probe=g[0]))
+            break
+    judge(ctx, env, fam, ref, replay, sig, stats)
     ctx.case(("natural", kind, seed))
+
+
+def outcome_key(th):
+    k, v = outcome(th)
+    return (k, W.result_key(v, ac=False) if k == "ok" else v)
 
 
 def reference(seed, n, ref_cache):
@@ -348,42 +428,81 @@ def scenario_parser(ctx, seed, n, ref_cache, stats):
     ctx.case(("parser", kind, seed))
 
 
+Y = "(declare-fun y () Int)"
 COMMAND_SEQS = [
-    # (name, failing command, later commands); the parser object reads them one after the other
-    ("let-body", "(assert (let ((a 1)) (> a zz)))", ["(assert (> a y))"], "uses-leaked-binder"),
-    ("let-body-shadow", "(assert (let ((y 5)) (> y zz)))", ["(assert (> y 0))"], "uses-leaked-binder"),
-    ("quantifier-body", "(assert (forall ((q Int)) (> q zz)))", ["(assert (> q y))"], "uses-leaked-binder"),
-    ("quantifier-body-shadow", "(assert (exists ((y Bool)) (and y zz)))", ["(assert (> y 0))"], "uses-leaked-binder"),
-    ("define-fun-body", "(define-fun g ((b Int)) Int (+ b zz))", ["(assert (> b y))"], "uses-leaked-binder"),
-    ("undefined-top", "(assert (> zz 0))", ["(assert (> y 0))", "(assert (> zz 0))"], "plain"),
-    ("unsupported-command", "(frobnicate y)", ["(assert (> y 0))", "(declare-fun k () Int)", "(assert (> k y))"], "plain"),
-    ("malformed", "(assert (> y ))", ["(assert (> y 0))"], "plain"),
-    ("ill-typed", "(assert (+ y true))", ["(assert (> y 0))", "(assert (+ y true))"], "plain"),
+    # (name, prelude, failing command, later commands, kind of probe); one parser object reads them one after the other
+    ("let-body", Y, "(assert (let ((a 1)) (> a zz)))", ["(assert (> a y))"], "uses-leaked-binder"),
+    ("let-body-shadow", Y, "(assert (let ((y 5)) (> y zz)))", ["(assert (> y 0))"], "uses-leaked-binder"),
+    ("quantifier-body", Y, "(assert (forall ((q Int)) (> q zz)))", ["(assert (> q y))"], "uses-leaked-binder"),
+    ("quantifier-body-shadow", Y, "(assert (exists ((y Bool)) (and y zz)))", ["(assert (> y 0))"], "uses-leaked-binder"),
+    ("define-fun-body", Y, "(define-fun g ((b Int)) Int (+ b zz))", ["(assert (> b y))"], "uses-leaked-binder"),
+    ("undefined-top", Y, "(assert (> zz 0))", ["(assert (> y 0))", "(assert (> zz 0))"], "plain"),
+    ("unsupported-command", Y, "(frobnicate y)", ["(assert (> y 0))", "(declare-fun k () Int)", "(assert (> k y))"], "plain"),
+    ("malformed", Y, "(assert (> y ))", ["(assert (> y 0))"], "plain"),
+    ("ill-typed", Y, "(assert (+ y true))", ["(assert (> y 0))", "(assert (+ y true))"], "plain"),
+    # the formal parameters of a definition are fresh symbols of the environment
+    ("define-fun-fresh-name", Y, "(define-fun g ((z Int)) Int (+ z zz))", ["(define-fun h ((z Int)) Int (+ z 1))"],
+     "plain"),
 ]
+
+
+def _nested_binder_seqs():
+    """a command failing under 2-3 simultaneously open binders that all re-bind ONE name, every combination of
+    binder kinds (L = let, Q = forall/exists, D = define-fun parameter, outermost only); the name is a declared
+    symbol (`a`) or has no declaration (`e`)"""
+    out = []
+
+    def wrap(kind, name, depth, body):
+        if kind == "L":
+            return "(let ((%s (+ c %d))) %s)" % (name, depth, body)
+        return "(%s ((%s Int)) %s)" % ("forall" if depth % 2 else "exists", name, body)
+    for name, decl in (("a", "(declare-fun c () Int)(declare-fun a () Int)"), ("e", "(declare-fun c () Int)")):
+        for outer in "LQD":
+            for mid in ("", "L", "Q"):
+                for inner in "LQ":
+                    kinds = [k for k in (mid, inner) if k]
+                    body = "(> %s undefined_symbol)" % name
+                    for d, k in enumerate(reversed(kinds)):
+                        body = wrap(k, name, d + 1, body)
+                    if outer == "D":
+                        bad = "(define-fun g ((%s Int)) Bool %s)" % (name, body)
+                    else:
+                        bad = "(assert %s)" % wrap(outer, name, 7, body)
+                    later = ["(assert (> %s 0))" % name, "(assert (= (+ %s 1) c))" % name]
+                    out.append(("nested:%s%s%s:%s" % (outer, mid, inner, name), decl, bad, later, "uses-leaked-binder"))
+    return out
+
+
+COMMAND_SEQS += _nested_binder_seqs()
+
+_FRESH_NAME = __import__("re").compile(r"__([A-Za-z_]+?)\d+")
 
 
 def scenario_commands(ctx, idx, stats):
     """one parser object reading a stream of commands (get_command_generator does not reset the parser)"""
-    name, bad, later, probe_kind = COMMAND_SEQS[idx % len(COMMAND_SEQS)]
+    name, prelude, bad, later, probe_kind = COMMAND_SEQS[idx % len(COMMAND_SEQS)]
 
     def run(with_bad):
         env = Environment()
         push_env(env)
         try:
             parser = SmtLibParser(env)
-            out = []
+            out, norm = [], []
 
             def cmds(text):
-                return [(c.name, [W.result_key(a, ac=False) for a in c.args])
-                        for c in parser.get_command_generator(io.StringIO(text))]
-            outcome(lambda: cmds("(declare-fun y () Int)"))
+                res = list(parser.get_command_generator(io.StringIO(text)))
+                return ([(c.name, [W.result_key(a, ac=False) for a in c.args]) for c in res],
+                        [(c.name, [_FRESH_NAME.sub(r"__\1#", str(a)) for a in c.args]) for c in res])
+            outcome(lambda: cmds(prelude))
             if with_bad:
                 k, v = outcome(lambda: cmds(bad))
                 if k != "exc":
                     return None
             for t in later:
-                out.append(outcome(lambda: cmds(t)))
-            return out
+                k, v = outcome(lambda: cmds(t))
+                out.append((k, v[0] if k == "ok" else v))
+                norm.append((k, v[1] if k == "ok" else v))
+            return out, norm
         finally:
             pop_env()
     got, ref = run(True), run(False)
@@ -392,10 +511,12 @@ def scenario_commands(ctx, idx, stats):
         return
     ctx.count("fail:parser-command")
     ctx.case(("commands", name))
-    if got != ref:
-        ctx.report_s({"oracle": "parser-command-sequence", "fail": name, "probe": probe_kind},
+    if got[0] != ref[0]:
+        only_names = got[1] == ref[1]
+        ctx.report_s({"oracle": "parser-command-sequence", "fail": name.split(":")[0],
+                      "probe": "fresh-name" if only_names else probe_kind},
                      "parser object: after the failing command %s the commands %s give %s; without the failing "
-                     "command %s" % (bad, later, str(got)[:120], str(ref)[:120]),
+                     "command %s" % (bad, later, str(got[1])[:160], str(ref[1])[:160]),
                      {"fail": "commands:" + name, "bad": bad, "later": later})
 
 
@@ -521,12 +642,4 @@ def replay(ctx, rep):
         outcome(lambda: parser.get_script(io.StringIO(r.get("text", ""))))
         judge(ctx, env, fam, ref, r, {"fail": "parser", "call": fail}, stats, parser=parser)
         return
-    push_env(env)
-    try:
-        for kind, th in natural_failures(env, fam, ctx.rng):
-            if kind == fail:
-                outcome(th)
-    finally:
-        pop_env()
-    judge(ctx, env, fam, ref, r, {"fail": fail.split(":")[0], "call": fail}, stats)
-    ctx.case(("replay", fail))
+    scenario_natural(ctx, seed, n, ref_cache, stats, only=fail)
